@@ -13,3 +13,12 @@ package types
 //@   property C19 C20
 //@   trusted generated code; contains a map-range sum
 //@   ensures result >= 0
+
+//@ func Packet.ResetVT
+//@   property C07 C20
+//@   trusted generated code (calls into the protobuf runtime)
+//@   modifies *m
+//@ func Stat.MarshalToSizedBufferVT
+//@   property C19 C20
+//@   trusted generated code
+//@   modifies dAtA[*]
